@@ -140,6 +140,6 @@ static inline void sc_ulock_lock(iora_ulock *l) { pk_env_connect(G_impl, &G_fres
   __CPROVER_loop_invariant(kv.k <= kv.N && self->shuttingDown && self->syncMutex.held) \
   __CPROVER_loop_invariant((kv.wpos != CUR_NONE && kv.wpos < kv.k) ? G_wbuf.cv.n_all == __CPROVER_loop_entry(G_wbuf.cv.n_all) + 1 : G_wbuf.cv.n_all == __CPROVER_loop_entry(G_wbuf.cv.n_all)) \
   __CPROVER_decreases(kv.N - kv.k))
-#define IORA_LOOP_Impl_teardownWaitOut_1 TD_PC_LOOP
-#define IORA_LOOP_Impl_teardownWaitOut_2 TD_RB_LOOP
-#define IORA_LOOP_Impl_setTeardownFence_1 TD_PC_LOOP
+/* keyed by the scanned map (plugin.py hook_end), not by ordinal: a removed wake loop leaves its contract unused instead of unmapped */
+#define TDLOOP_pendingConnects TD_PC_LOOP
+#define TDLOOP_receiveBuffers TD_RB_LOOP
